@@ -225,6 +225,34 @@ static void jitlu_case(Toks& tk, Out& out)
           same = false;
     if (!same)
       out.tok("ORACLE_JIT_LINEAR_SOLVE_DIFFERS_FROM_CPU");
+    // Solve takes any pair of triangular factors, not only those Factor produces: the same system with the factors
+    // rescaled to (L D)(D^-1 U), D a diagonal of powers of two (exact), so that L's diagonal is not 1
+    {
+      auto L2 = LUc.first;
+      auto U2 = LUc.second;
+      for (std::size_t b = 0; b < nb; ++b)
+        for (std::size_t r = 0; r < n; ++r)
+          for (std::size_t c = 0; c < n; ++c)
+          {
+            if (!L2.IsZero(r, c))
+              L2[b][r][c] = L2[b][r][c] * std::ldexp(1.0, (int)(c % 3) - 1);
+            if (!U2.IsZero(r, c))
+              U2[b][r][c] = U2[b][r][c] * std::ldexp(1.0, 1 - (int)(r % 3));
+          }
+      M x2(nb, n, 0.0), xc2(nb, n, 0.0);
+      for (std::size_t b = 0; b < nb; ++b)
+        for (std::size_t i = 0; i < n; ++i)
+          x2[b][i] = xc2[b][i] = (double)rhs[b * n + i];
+      jls.template Solve<M>(x2, L2, U2);
+      cls.template Solve<M>(xc2, L2, U2);
+      bool same2 = true;
+      for (std::size_t b = 0; b < nb; ++b)
+        for (std::size_t i = 0; i < n; ++i)
+          if (std::memcmp(&x2[b][i], &xc2[b][i], sizeof(double)) != 0)
+            same2 = false;
+      if (!same2)
+        out.tok("ORACLE_JIT_LINEAR_SOLVE_DIFFERS_FROM_CPU:factors_with_non_unit_diagonal");
+    }
   }
   catch (const std::system_error& e)
   {
@@ -345,6 +373,27 @@ static void jitsolver_case(Toks& tk, Out& out, std::size_t ncells, std::size_t n
     out.tok("NOTE_steps=" + std::to_string(jres.stats_.number_of_steps_) + "_accepted=" + std::to_string(jres.stats_.accepted_));
     if (!same)
       out.tok("ORACLE_JIT_SOLVER_DIFFERS_FROM_CPU");
+    // the generated diagonal-shift kernel handles exactly one group of L cells: a Jacobian of another block count must
+    // be rejected at the call, as the CPU path would simply have handled it
+    if (ncells == L)
+    {
+      auto b2 = SM::Create(nspec).SetNumberOfBlocks(2 * L).InitialValue(1.0);
+      for (std::size_t i = 0; i < nspec; ++i)
+        b2 = b2.WithElement(i, i);
+      SM jac2(b2);
+      auto diag = jac2.DiagonalIndices(0);
+      bool rejected = false;
+      try
+      {
+        jit.solver_.AlphaMinusJacobian(jac2, diag, 0.5);
+      }
+      catch (const std::system_error&)
+      {
+        rejected = true;
+      }
+      if (!rejected)
+        out.tok("ORACLE_JIT_WRONG_CELL_COUNT_NOT_REJECTED:alpha_minus_jacobian");
+    }
   }
   catch (const std::system_error& e)
   {
